@@ -181,6 +181,10 @@ def _gen_loop(r, cfg) -> tuple[list, list]:
         if r.random() < 0.85:
             t_join[f] = t_create + r.randint(700, 2500) * 1000
             ops.append({"op": "cluster", "t": t_join[f], "st": f, "call": "join_advertised"})
+    if not cfg["app_calls_update"] and r.random() < 0.6:
+        # an application that calls update() only around its own commands (never periodically)
+        for f, tj in sorted(t_join.items()):
+            ops.append({"op": "cluster", "t": tj + 3_000_000 + r.randint(20, 80) * 1000, "st": f, "call": "update"})
     t_joined = max(t_join.values(), default=t_create) + 4_600_000
     branch = r.choice(["silence", "silence", "breakup", "breakup", "leave", "role_off", "none", "cancel", "link"])
     cfg["branch"] = branch
@@ -368,6 +372,30 @@ def _execute_loop(plan: dict) -> dict:
                         f"+{(t0 - k.t0_us) / 1e6:.3f} s; not passive by +{(deadline - k.t0_us) / 1e6:.3f} s (state {w.prev.state.name if w.prev.state else '?'}, "
                         f"shim={shim}, app_calls_update={cfg.get('app_calls_update', True)})")
             trace.append(("join", "not-completed", why))
+    # ---- the transmission gate: an active station (stand-alone / leader) that gets position reports emits VAMs
+    gap_us = 5_000_000          # T_GenVamMax; the statement gives no number, the spec's maximum interval is used
+    for idx in sorted(sim.fac):
+        emits = [v["t"] for v in sim.vam_tx if v["st"] == idx]
+        stretch = None
+        ei = 0
+        last_emit = None
+        for r_ in (x for x in sim.reports if x["st"] == idx):
+            while ei < len(emits) and emits[ei] <= r_["t"]:
+                last_emit = emits[ei]
+                ei += 1
+            active = r_["state"] in (VBSState.VRU_ACTIVE_STANDALONE, VBSState.VRU_ACTIVE_CLUSTER_LEADER) and not r_["raised"]
+            if not active:
+                stretch = None
+                continue
+            if stretch is None:
+                stretch = r_["t"]
+            ref = max(stretch, last_emit if last_emit is not None else 0)
+            if r_["t"] - ref > gap_us + 2 * plan["stations"][idx].get("period_ms", 300) * 1000:
+                sim.violate(ID, "suppressed-while-active", "closed-loop/no-vam-emitted", f"station {idx} in state {r_['state'].name} has been getting position "
+                            f"reports for {(r_['t'] - ref) / 1e6:.3f} s without any exception and without handing a VAM to BTP port 2018 "
+                            f"(should_transmit_vam() = {sim.fac[idx]['watch'].prev.tx})")
+                trace.append(("silent-while-active", idx))
+                break
     # ---- liveness at the end of the run: nobody is silenced for good
     for idx, fac in sorted(sim.fac.items()):
         w = fac["watch"]
